@@ -1,7 +1,7 @@
 (* C01 - Same Day, then 30-day, then Section 104.  Statements only. *)
 From Coq Require Import QArith Qcanon ZArith List Bool Sorted.
 Require Import CGT.Model.Num CGT.Model.Match CGT.Proofs.NumFacts CGT.Proofs.MatchFacts CGT.Proofs.MatchInv
-               CGT.Proofs.MatchOrder CGT.Proofs.Examples.
+               CGT.Proofs.MatchOrder CGT.Proofs.MatchGreedy CGT.Proofs.Examples.
 Import ListNotations.
 Open Scope Qc_scope.
 
@@ -61,6 +61,22 @@ Proof.
   destruct (qeqb_spec (m_pq s) 0) as [E|_]; [contradiction|].
   destruct (qeqb_spec (sq d) 0) as [E|_]; [contradiction|]. reflexivity.
 Qed.
+
+(* Earliest first, and nothing skipped.  (1) If the look-ahead identifies part of a disposal with a later acquisition, every
+   earlier acquisition day of the list has no free shares left (free = not needed for that day's own disposals, not already
+   claimed).  (2) If anything of the disposal is left over for the Section 104 pool, every acquisition day inside the window has
+   no free shares left.  For future lists of any length. *)
+Theorem C01_earliest_first : forall w offs d pre e1 post R rem cl, 0 <= rem -> 0 < R ->
+  ratios_pos (pre ++ e1 :: post) -> sorted_days (pre ++ e1 :: post) -> hasbuy e1 = true ->
+  (exists l z, In l (b_legs (bnb w offs d (pre ++ e1 :: post) R rem cl)) /\ lg_acq l = Some z /\ In z (dates post)) ->
+  free_of e1 (b_cl (bnb w offs d (pre ++ e1 :: post) R rem cl)) = 0.
+Proof. exact bnb_earliest_first. Qed.
+Theorem C01_pool_only_after_window_exhausted : forall w offs d fut R rem cl, 0 <= rem -> 0 < R -> ratios_pos fut -> sorted_days fut ->
+  0 < b_rem (bnb w offs d fut R rem cl) ->
+  forall e, In e fut -> hasbuy e = true -> (dt e - dt d <= w)%Z -> free_of e (b_cl (bnb w offs d fut R rem cl)) = 0.
+Proof. exact bnb_exhaustive. Qed.
+Print Assumptions C01_earliest_first.
+Print Assumptions C01_pool_only_after_window_exhausted.
 
 Example C01_witness : sorted_days ex1 /\ exists s, run 30 ex1 = inr s /\ List.length (m_disp s) = 3%nat.
 Proof. split; [exact ex1_sorted|]. destruct ex1_runs as (s & E & L & _). exists s. split; assumption. Qed.
